@@ -65,6 +65,24 @@ func (t *ty) sexp() sx.Sexp {
 		return sx.T(t.tag, xs...)
 	case "al":
 		return sx.T("al", sx.A(t.name))
+	case "tuple":
+		xs := make([]sx.Sexp, len(t.kids))
+		for i, k := range t.kids {
+			xs[i] = k.sexp()
+		}
+		return sx.T("tuple", xs...)
+	case "hash":
+		return sx.T("hash", t.kids[0].sexp(), t.kids[1].sexp(), bs(t.lo), bs(t.hi))
+	case "struct":
+		xs := make([]sx.Sexp, len(t.kids))
+		for i, k := range t.kids {
+			o := "req"
+			if t.opts[i] {
+				o = "opt"
+			}
+			xs[i] = sx.L(sx.Str(t.strs[i]), sx.A(o), k.sexp())
+		}
+		return sx.T("struct", xs...)
 	}
 	return sx.A(t.tag)
 }
@@ -661,6 +679,7 @@ func gen(g *core.G) {
 		g.Emit(callLine(t, args, blk))
 	}
 	genNewM(g)
+	genNewC(g)
 	genNew(g)
 }
 
@@ -753,11 +772,212 @@ func newmWitnessOf(r *rand.Rand, k int) []sx.Sexp {
 	return a
 }
 
+// Struct / Hash / Tuple receivers of the modelled constructors (member value types without Optional: a plain key with a
+// value type that accepts undef is optional in Puppet, which the model does not cover)
+func mkStruct(ms ...interface{}) *ty {
+	t := &ty{tag: "struct"}
+	for i := 0; i+2 < len(ms); i += 3 {
+		t.strs = append(t.strs, ms[i].(string))
+		t.opts = append(t.opts, ms[i+1].(bool))
+		t.kids = append(t.kids, ms[i+2].(*ty))
+	}
+	return t
+}
+
+var newmStructs = []*ty{
+	mkStruct("a", false, tInt),
+	mkStruct("a", false, tInt, "b", false, tInt),
+	mkStruct("a", true, tInt),
+	mkStruct("a", false, tInt, "b", true, tStr),
+	mkStruct("a", true, tInt, "b", true, tStr),
+	mkStruct("a", false, tStr, "b", false, tInt05, "c", true, tInt),
+	mkStruct("a", false, tVarIS, "b", true, tBool),
+}
+
+var newmHashes = []*ty{
+	{tag: "hash", kids: []*ty{tStr, tInt}, lo: i64(0), hi: nil},
+	{tag: "hash", kids: []*ty{tStr, tInt}, lo: i64(1), hi: i64(2)},
+	{tag: "hash", kids: []*ty{tStr13, tInt}, lo: i64(0), hi: nil},
+	{tag: "hash", kids: []*ty{tStr13, tInt}, lo: i64(2), hi: i64(2)},
+	{tag: "hash", kids: []*ty{tInt, tStr}, lo: i64(0), hi: i64(3)},
+	{tag: "hash", kids: []*ty{tEnum, tInt05}, lo: i64(1), hi: nil},
+	{tag: "hash", kids: []*ty{tVarIS, tAny}, lo: i64(0), hi: nil},
+}
+
+var newmTuples = []*ty{
+	{tag: "tuple", kids: []*ty{tInt, tStr}},
+	{tag: "tuple", kids: []*ty{tStr, tStr, tStr}},
+	{tag: "tuple", kids: []*ty{tInt}},
+	{tag: "tuple", kids: []*ty{tInt, tOptStr}},
+}
+
+type sentry struct{ k, v sx.Sexp }
+
+// keys a declaration never names (no arrays: an array key in a key-value array selects the unmodelled tree dispatch)
+var newmOddKeys = []sx.Sexp{sv(""), iv(1), sv("z"), sv("A"), bv(true), sx.T("u"), iv(0), sv(" "), sx.T("d")}
+var newmOddVals = []sx.Sexp{iv(1), sv("x"), sx.T("u"), bv(true), av(), iv(7), sv(""), sx.T("h")}
+
+func hv(es []sentry) sx.Sexp {
+	xs := make([]sx.Sexp, len(es))
+	for i, e := range es {
+		xs[i] = sx.L(e.k, e.v)
+	}
+	return sx.T("h", xs...)
+}
+
+// the ways the modelled dispatches of the Hash constructor take entries
+func sentryForms(r *rand.Rand, es []sentry) []sx.Sexp {
+	switch r.Intn(4) {
+	case 0: // key-value array
+		xs := make([]sx.Sexp, len(es))
+		for i, e := range es {
+			xs[i] = av(e.k, e.v)
+		}
+		return []sx.Sexp{av(xs...)}
+	case 1: // flat array
+		xs := []sx.Sexp{}
+		for _, e := range es {
+			xs = append(xs, e.k, e.v)
+		}
+		if r.Intn(8) == 0 && len(xs) > 0 {
+			xs = xs[:len(xs)-1]
+		}
+		return []sx.Sexp{av(xs...)}
+	}
+	return []sx.Sexp{hv(es)}
+}
+
+func genNewMContainers(g *core.G, emit func(recv sx.Sexp, args []sx.Sexp)) {
+	r := g.Rng
+	// small universe: every Struct receiver x every set of <= 3 keys out of {a, b, c, '', 1, z}, each with an Integer or a
+	// String value, as a hash argument (every third also as a key-value array)
+	keys := []sx.Sexp{sv("a"), sv("b"), sv("c"), sv(""), iv(1), sv("z")}
+	vals := []sx.Sexp{iv(1), sv("x")}
+	var sets [][]sentry
+	var rec func(from int, cur []sentry)
+	rec = func(from int, cur []sentry) {
+		sets = append(sets, append([]sentry{}, cur...))
+		if len(cur) == 3 {
+			return
+		}
+		for k := from; k < len(keys); k++ {
+			for _, v := range vals {
+				rec(k+1, append(cur, sentry{keys[k], v}))
+			}
+		}
+	}
+	rec(0, nil)
+	for _, s := range newmStructs {
+		for i, es := range sets {
+			emit(s.sexp(), []sx.Sexp{hv(es)})
+			if i%3 == 0 && len(es) > 0 {
+				xs := make([]sx.Sexp, len(es))
+				for j, e := range es {
+					xs[j] = av(e.k, e.v)
+				}
+				emit(s.sexp(), []sx.Sexp{av(xs...)})
+			}
+		}
+	}
+	for _, s := range newmHashes {
+		for _, es := range sets {
+			if len(es) <= 2 {
+				emit(s.sexp(), []sx.Sexp{hv(es)})
+			}
+		}
+	}
+	// random: a witness of the receiver, 0..2 mutations of keys / values / size, any modelled form; also through Init[T]
+	all := append(append([]*ty{}, newmStructs...), newmHashes...)
+	env := map[string]*ty{}
+	for i := 0; i < 3000*g.Scale; i++ {
+		s := all[r.Intn(len(all))]
+		var es []sentry
+		if s.tag == "struct" {
+			for j, k := range s.kids {
+				if !s.opts[j] || r.Intn(2) == 0 {
+					es = append(es, sentry{sv(s.strs[j]), witness(r, k, env, 0)})
+				}
+			}
+			if r.Intn(3) == 0 {
+				r.Shuffle(len(es), func(a, b int) { es[a], es[b] = es[b], es[a] })
+			}
+		} else {
+			n := int(*s.lo) + r.Intn(3)
+			if s.hi != nil && int64(n) > *s.hi {
+				n = int(*s.hi)
+			}
+			seen := map[string]bool{}
+			for tries := 0; len(es) < n && tries < 20; tries++ {
+				k := witness(r, s.kids[0], env, 0)
+				if !seen[k.String()] && k.Tag() != "a" {
+					seen[k.String()] = true
+					es = append(es, sentry{k, witness(r, s.kids[1], env, 0)})
+				}
+			}
+		}
+		for m := r.Intn(3); m > 0; m-- {
+			switch r.Intn(6) {
+			case 0:
+				if len(es) > 0 {
+					es[r.Intn(len(es))].k = newmOddKeys[r.Intn(len(newmOddKeys))]
+				}
+			case 1:
+				if len(es) > 0 {
+					k := r.Intn(len(es))
+					es = append(es[:k:k], es[k+1:]...)
+				}
+			case 2:
+				es = append(es, sentry{newmOddKeys[r.Intn(len(newmOddKeys))], newmOddVals[r.Intn(len(newmOddVals))]})
+			case 3:
+				if len(es) > 0 {
+					es[r.Intn(len(es))].v = newmOddVals[r.Intn(len(newmOddVals))]
+				}
+			case 4:
+				if len(es) > 0 { // a member replaced by an odd key: same size, member missing
+					k := r.Intn(len(es))
+					es[k].k = newmOddKeys[r.Intn(len(newmOddKeys))]
+				}
+			default:
+				if s.tag == "struct" { // a declared key once more / the optional one
+					es = append(es, sentry{sv(s.strs[r.Intn(len(s.strs))]), newmOddVals[r.Intn(len(newmOddVals))]})
+				}
+			}
+		}
+		recv := s.sexp()
+		if r.Intn(8) == 0 {
+			recv = sx.T("init", recv)
+		}
+		emit(recv, sentryForms(r, es))
+	}
+	// Tuple receivers (the Array constructor): witnesses, sizes around the declared one, a wrong element
+	for i := 0; i < 600*g.Scale; i++ {
+		s := newmTuples[r.Intn(len(newmTuples))]
+		n := len(s.kids) - 1 + r.Intn(3)
+		var el []sx.Sexp
+		for j := 0; j < n; j++ {
+			tj := j
+			if tj > len(s.kids)-1 {
+				tj = len(s.kids) - 1
+			}
+			el = append(el, witness(r, s.kids[tj], env, 0))
+		}
+		if r.Intn(3) == 0 && len(el) > 0 {
+			el[r.Intn(len(el))] = newmOddVals[r.Intn(len(newmOddVals))]
+		}
+		args := []sx.Sexp{av(el...)}
+		if r.Intn(5) == 0 {
+			args = append(args, bv(r.Intn(2) == 0))
+		}
+		emit(s.sexp(), args)
+	}
+}
+
 func genNewM(g *core.G) {
 	r := g.Rng
 	emit := func(recv sx.Sexp, args []sx.Sexp) {
 		g.Emit("newm " + recv.String() + " " + sx.T("args", args...).String())
 	}
+	genNewMContainers(g, emit)
 	recvs := []sx.Sexp{sx.T("init")}
 	for _, t := range newmRecv {
 		recvs = append(recvs, t.sexp(), sx.T("init", t.sexp()))
